@@ -13,7 +13,8 @@ import (
 // snapKey is one key of the snapshot dataset with its expectation.
 type snapKey struct {
 	ID       string
-	Key      []byte
+	Key      []byte `json:"-"`
+	KeyQ     string // the key, Go-quoted
 	Slot     int
 	KeyClass string
 	Shape    string
@@ -76,7 +77,7 @@ func genSnapshot(r *rand.Rand, kind, hist string, black []string, filter *ref.Fi
 			// the path; not this property's business
 			ds[i].ExpireAtMs = time.Now().UnixMilli() + 30*24*3600_000
 		}
-		k := &snapKey{ID: id, Key: key, Slot: ref.HashSlot(key), KeyClass: ref.KeyClass(key), Shape: sh.name, Kind: ds[i].Value.Kind.String(),
+		k := &snapKey{ID: id, Key: key, KeyQ: fmt.Sprintf("%q", key), Slot: ref.HashSlot(key), KeyClass: ref.KeyClass(key), Shape: sh.name, Kind: ds[i].Value.Kind.String(),
 			Filtered: filter.KeyRejected(key)}
 		s.Keys = append(s.Keys, k)
 		s.ByID[id] = k
